@@ -34,38 +34,21 @@ F64_EXACT = 2 ** 53
 # ---------------------------------------------------------------------------------------------------------------------
 # KNOWN: inputs on which the real code violates the property today.  They are kept OUT of the generated families (so the
 # stand-ins pass on the current tree) -- the oracle is NOT weakened for anything else.
+# (Fixed since the first version of this module and now part of the families: yamlmulti `---` separators 60754ad, the extra
+#  newline after a YAML document 6ac2269, TOML values that could only be written as broken TOML 3850144.)
 KNOWN = [
     # /verif/known_findings.txt  "finding: property=C03 unit=map_json ...":  the JSON converter sends integers through f64
     # (`out json 9007199254740993;` writes 9007199254740992.0, `1` is written `1.0`).  JSON numbers are therefore compared by
     # numeric value (so `1.0` for 1 is fine) and integers with |n| > 2^53 are not generated for the JSON family.
     dict(id='json-int-via-f64', family='json', excluded='integers with |n| > 2^53',
          input='out json 9007199254740993;', observed='9007199254740992.0', clause='numbers of equal numeric value'),
-    # TOML: a list that mixes tuples with non-tuples is written as syntactically invalid TOML and the build succeeds.
-    #   out toml {l = [1, {x = 1}]};   ->   "l = [\n    1\n[[l]]\nx = 1\n,\n]\n"      (tomllib: Unclosed array)
-    #   out toml {l = [{x = 1}, 1]};   ->   "[[l]]\nx = 1\n,\n    1"
-    # TOML-family lists are generated either without tuples or of tuples only (at every nesting level inside the list).
-    dict(id='toml-mixed-list', family='toml', excluded='lists mixing tuples and non-tuples; lists of lists that contain tuples',
-         input='out toml {l = [1, {x = 1}]};', observed='l = [\\n    1\\n[[l]]\\nx = 1\\n,\\n]  (exit 0, not TOML)',
-         clause='the text produced is valid in that format / unrepresentable values are reported as an error'),
-    # TOML: a top-level value that is not a tuple is written as a bare value (`out toml 1;` -> "1", `out toml [1, 2];` ->
-    # "[\n 1,\n 2,\n]"), which is not a TOML document; the build succeeds.  The TOML family only has tuples at top level.
-    dict(id='toml-top-level-not-a-table', family='toml', excluded='top-level values that are not tuples',
-         input='out toml 1;', observed='"1" (exit 0, not a TOML document)',
-         clause='the text produced is valid in that format / unrepresentable values are reported as an error'),
-    # yamlmulti: the documents of a list are written one after the other WITHOUT a `---` separator, so a list of two or more
-    # items does not decode to that many documents (`out yamlmulti [1, 2];` -> "1\n\n2\n\n" = ONE document, the string "1\n2";
-    # `[{a = 1}, {a = 2}]` -> "a: 1\n\na: 2\n\n" = one mapping with a duplicate key).  yamlmulti is exercised with lists of
-    # 0 or 1 items and with non-list values only.
-    dict(id='yamlmulti-no-document-separator', family='yamlmulti', excluded='lists with two or more items',
-         input='out yamlmulti [1, 2];', observed='"1\\n\\n2\\n\\n" (a single YAML document)',
-         clause='read by an independent decoder yields the same data (same nesting, same list order)'),
-    # yaml / yamlmulti / convert yaml: the converter writes one extra "\n" after the document.  When the LAST scalar of the document is a
-    # string that ends in two or more newlines (or consists of newlines only) it is emitted as a keep-chomped block scalar (`|+`), and
-    # the extra line becomes part of the string: `out yaml "a\n\n";` -> "|+\n  a\n\n\n", which decodes to "a\n\n\n" (PyYAML and libyaml agree).
-    # Trees whose last scalar (document order) is such a string get a harmless final item appended (`[tree, 0]`).
-    dict(id='yaml-final-keep-scalar-gains-newline', family='yaml, yamlmulti, convert yaml',
-         excluded='documents whose last scalar is a string ending in "\\n\\n" or made of newlines only',
-         input='out yaml "a\\n\\n";', observed='"|+\\n  a\\n\\n\\n" which decodes to "a\\n\\n\\n"', clause='identical strings'),
+    # TOML, left over by 3850144 (which refuses a value when the text written for it does not parse as TOML): a top-level list whose only
+    # item is a list of exactly one scalar is written as `[[1]]` / `[['a']]` / `[[true]]` / `[[1.5]]` -- text that DOES parse, as an
+    # array-of-tables header: tomllib reads {'1': [{}]} ({'1': {'5': [{}]}} for 1.5).  Exit 0, same through `convert toml [[1]]`.
+    # ([[1, 2]], [[[1]]], [[1], [2]], [[]] are refused.)  Not generated: TOML_NOT_A_DOCUMENT below has no list of that shape.
+    dict(id='toml-top-level-singleton-list-of-singleton-list', family='toml', excluded='top-level [[x]] with x one scalar',
+         input='out toml [[1]];', observed='"[[1]]" (exit 0), which is the TOML document {"1": [{}]}',
+         clause='a value the target format cannot represent is reported as an error; it is never silently altered'),
 ]
 
 
@@ -285,7 +268,8 @@ def gen_scalar(rnd, fmt):
 
 
 def gen_value(rnd, fmt, depth, want=None, in_list=False):
-    """want: None (anything), 'tuple', 'nontuple' (used for the TOML list restriction, KNOWN toml-mixed-list)."""
+    """want: None (anything), 'tuple', 'nontuple'.  The TOML round-trip family has lists of tuples only or lists without any tuple
+    below them; lists mixing tuples with other items are refused by ucg's TOML converter and live in standin_unrepresentable."""
     if want == 'tuple':
         kind = 'tuple'
     else:
@@ -303,7 +287,7 @@ def gen_value(rnd, fmt, depth, want=None, in_list=False):
     n = rnd.choice([0, 1, 1, 2, 2, 3, 4]) if depth > 0 else 0
     if kind == 'list':
         if fmt == 'toml':
-            # KNOWN toml-mixed-list: all tuples, or no tuple anywhere below (lists of lists hold no tuples either)
+            # all tuples, or no tuple anywhere below (lists of lists hold no tuples either); mixed lists: see standin_unrepresentable
             if want == 'nontuple' or rnd.random() < 0.6:
                 return [gen_value(rnd, fmt, depth - 1, want='nontuple', in_list=True) for _ in range(n)]
             return [gen_value(rnd, fmt, depth - 1, want='tuple', in_list=True) for _ in range(n)]
@@ -314,7 +298,7 @@ def gen_value(rnd, fmt, depth, want=None, in_list=False):
 
 
 def gen_top(rnd, fmt, depth):
-    if fmt == 'toml':               # KNOWN toml-top-level-not-a-table
+    if fmt == 'toml':               # a TOML document is a table; other top-level values: see standin_unrepresentable
         return gen_value(rnd, fmt, depth, want='tuple')
     return gen_value(rnd, fmt, depth)
 
@@ -340,6 +324,11 @@ def fixed_values(fmt):
         vals.append(Tup([('n', None), ('ln', [None, None]), ('tn', Tup([('x', None)])), ('mix', [None, True, 1, 1.5, 's', [], Tup([])])]))
         vals += [None, True, False, 0, 1, -1, 1.5, '', 'true', '~', 'a: b', 'line1\nline2\n', [], [[]], [None], Tup([]), [Tup([]), 1, [Tup([('a', [Tup([])])])]]]
         vals += list(strs[::7])
+        # a string ending in two or more newlines / made of newlines only as the LAST scalar of the document (`|+` block scalar)
+        vals += ['a\n\n', '\n', '\n\n', 'trail\n\n\n', [1, 'a\n\n'], ['\n'], Tup([('k', 'x\n\n')]), Tup([('k', ['\n\n'])]), [Tup([('k', Tup([('j', 'a\n\n\n')]))])],
+                 ['a\n\n', 'b\n\n'], Tup([('a', '\n'), ('b', '\n')])]
+    else:
+        vals += [Tup([('k', 'x\n\n')]), Tup([('k', ['\n\n', '\n'])]), Tup([('l', [Tup([('k', 'a\n\n\n')])])])]
     return vals
 
 
@@ -636,8 +625,6 @@ def shrink(fmt, v, budget=30):
     """Greedy reduction of a failing tree: at most `budget` extra builds, only on the way to a violation report."""
     while budget > 0:
         for cand in smaller(v, fmt):
-            if fmt in ('yaml', 'yamlmulti'):
-                cand = yaml_known(cand)
             if ucg_lit(cand) == ucg_lit(v):
                 continue
             budget -= 1
@@ -693,31 +680,12 @@ def sizes(tier):
     return (250, 5) if tier == 'thorough' else (60, 4)
 
 
-def last_scalar(v):
-    """The last scalar of the document in document order (None for a document that ends in an empty container / a non-string)."""
-    if isinstance(v, list):
-        return last_scalar(v[-1]) if v else None
-    if isinstance(v, Tup):
-        return last_scalar(v.items[-1][1]) if v.items else None
-    return v
-
-
-def yaml_known(v):
-    """KNOWN yaml-final-keep-scalar-gains-newline: keep such a string from being the last scalar of the document."""
-    s = last_scalar(v)
-    if isinstance(s, str) and s and (s.endswith('\n\n') or s.strip('\n') == ''):
-        return [v, 0]
-    return v
-
-
 def family(fmt, tier, seed):
     n, depth = sizes(tier)
     rnd = random.Random('%s-%s' % (fmt, seed))
     vals = fixed_values(fmt)
     for i in range(n):
         vals.append(gen_top(rnd, fmt, rnd.randint(1, depth)))
-    if fmt == 'yaml':
-        vals = [yaml_known(v) for v in vals]
     return vals, ('%d fixed trees (every special string, key and number of the tables once) + %d seeded random trees of depth <= %d (seed %s), '
                   'each through `out %s`; KNOWN exclusions: %s' % (len(vals) - n, n, depth, seed, fmt, known_ids(fmt)))
 
@@ -755,23 +723,15 @@ def standin_yamlmulti_stream(tier, seed):
     n, depth = (120, 4) if tier == 'thorough' else (30, 3)
     rnd = random.Random('yamlmulti-%s' % seed)
     vals = [[], [1], ['a'], [None], [[1, 2]], [[]], [Tup([('a', 1)])], [Tup([])], 1, 'x', None, True, 1.5, Tup([('a', [1, 2])]), Tup([]),
-            ['---'], ['--- x\n...\n'], 'a\n---\nb', ['a\n---\nb\n'], ['...'], [Tup([('---', '---')])]]
+            ['---'], ['--- x\n...\n'], 'a\n---\nb', ['a\n---\nb\n'], ['...'], [Tup([('---', '---')])],
+            [1, 2], [1, 2, 3], [Tup([('a', 1)]), Tup([('a', 2)])], [Tup([('a', 1)]), Tup([('a', 1)])], ['---', '...', '--- '], [None, None], [[1, 2], [3]], [[], Tup([]), '', None],
+            ['a\n\n', '\n', 'b\n\n'], ['a\n---\nb\n', 'c\n...\nd'], [1, 'two', 3.5, True, None, [4], Tup([('five', 5)])], ['x', ['x'], [['x']]], [Tup([('l', [1, 2])]), [Tup([('l', [1, 2])])]],
+            ['line1\nline2', Tup([('k', 'line1\nline2\n')]), '# c', '- x', 'a: b'], ['', ''], [' ', '~', 'null', 'true'], list(range(12)), [[None]], [Tup([('k', '\n')]), Tup([('k', '\n')])]]
     for i in range(n):
-        v = gen_value(rnd, 'yaml', rnd.randint(0, depth))
-        if isinstance(v, list):
-            v = v[:1]                # KNOWN yamlmulti-no-document-separator: at most one document
-        vals.append(v)
-    fixed = []
-    for v in vals:                   # KNOWN yaml-final-keep-scalar-gains-newline applies to the (only) document as well
-        if isinstance(v, list) and v:
-            fixed.append([yaml_known(v[0])])
-        elif isinstance(v, list):
-            fixed.append(v)
-        else:
-            w = yaml_known(v)
-            fixed.append(Tup([('doc', w)]) if w is not v else v)
-    bound = ('%d values (non-lists and lists of 0 or 1 item; %d seeded random, depth <= %d, seed %s) through `out yamlmulti`; KNOWN exclusions: %s'
-             % (len(fixed), n, depth, seed, known_ids('yamlmulti')))
+        vals.append(gen_value(rnd, 'yaml', rnd.randint(0, depth)))
+    fixed = vals
+    bound = ('%d values (lists of 0..n items = that many documents, non-lists = one document; %d seeded random, depth <= %d, seed %s) through `out yamlmulti`, decoded with load_all'
+             % (len(fixed), n, depth, seed))
     return run_family('yamlmulti_stream', bound, 'yamlmulti', fixed)
 
 
@@ -793,13 +753,13 @@ def standin_convert_expr(tier, seed):
             v = gen_top(rnd, fmt, rnd.randint(1, depth))
             if i % 2 == 0:
                 v = Tup([('strings', list(chunk)), ('v', v)])
-            tr[fmt] = yaml_known(v) if fmt == 'yaml' else v
+            tr[fmt] = v
         triples.append(tr)
     # (bound to names first: the parser's running time grows steeply with the nesting depth of a literal)
     sources = ['let v1 = %s;\nlet v2 = %s;\nlet v3 = %s;\nout json {j = convert json v1, y = convert yaml v2, t = convert toml v3};\n'
                % (ucg_lit(t['json']), ucg_lit(t['yaml']), ucg_lit(t['toml'])) for t in triples]
     bound = ('%d programs `let v1 = V1; let v2 = V2; let v3 = V3; out json {j = convert json v1, y = convert yaml v2, t = convert toml v3};` with seeded random trees of depth <= %d (seed %s); '
-             'the three strings are read from the JSON artifact and decoded; KNOWN exclusions as in the out families' % (n, depth, seed))
+             'the three strings are read from the JSON artifact and decoded' % (n, depth, seed))
 
     def judge(t, rc, text):
         if text is None:
@@ -859,14 +819,48 @@ def inject_null(rnd, v):
     return v
 
 
+def inject_mix(rnd, v):
+    """Make one list of the TOML tree v (a Tup, changed in place) mix tuples with other items, or hold a tuple inside a list of lists."""
+    lists = []
+
+    def walk(x):
+        if isinstance(x, list):
+            lists.append(x)
+            for y in x:
+                walk(y)
+        elif isinstance(x, Tup):
+            for _, y in x.items:
+                walk(y)
+    walk(v)
+    if not lists:
+        used = set(k for k, _ in v.items)
+        v.items.insert(rnd.randint(0, len(v.items)), (gen_key(rnd, used), rnd.choice([[1, Tup([('x', 1)])], [Tup([('x', 1)]), 's'], [[Tup([('x', 1)])]], [Tup([]), 1.5]])))
+        return v
+    lst = rnd.choice(lists)
+    if lst and all(isinstance(x, Tup) for x in lst):
+        lst.insert(rnd.randint(0, len(lst)), rnd.choice([1, 's', True, 1.5, [], [1]]))
+    elif lst:
+        lst.insert(rnd.randint(0, len(lst)), rnd.choice([Tup([]), Tup([('x', 1)]), Tup([('x', [1, 2]), ('y', 's')])]))
+    else:
+        lst.append([Tup([('x', 1)])])
+    return v
+
+
+TOML_NOT_A_DOCUMENT = ['1', '"s"', 'true', '1.5', '[1, 2]', '[]', '[{a = 1}]', '[[1, 2]]', '[[[1]]]', '[[1], [2]]', '[[]]', '"a = 1"', '"[a]"', '(0 - 7)']   # not '[[1]]': KNOWN
+TOML_MIXED = [('{l = [1, {x = 1}]}', Tup([('l', [1, Tup([('x', 1)])])])), ('{l = [{x = 1}, 1]}', Tup([('l', [Tup([('x', 1)]), 1])])), ('{l = [[{a = 1}]]}', Tup([('l', [[Tup([('a', 1)])]])])),
+              ('{l = [[1], {a = 1}]}', Tup([('l', [[1], Tup([('a', 1)])])])), ('{l = [{a = [1, {b = 1}]}]}', Tup([('l', [Tup([('a', [1, Tup([('b', 1)])])])])])),
+              ('{l = [{}, 1]}', Tup([('l', [Tup([]), 1])])), ('{l = [[[{a = 1}]]]}', Tup([('l', [[[Tup([('a', 1)])]]])])), ('{l = [{a = [[{b = 1}]]}]}', Tup([('l', [Tup([('a', [[Tup([('b', 1)])]])])])])),
+              ('{t = {l = ["s", {}]}, z = 1}', Tup([('t', Tup([('l', ['s', Tup([])])])), ('z', 1)]))]
+
 CONSTRAINTS = ['constraint c = in 1..3;', 'constraint c = "a" | "b";', 'constraint c = in 1..1024 | 8080;']
 CONSTRAINT_USES = ['c', '{a = c}', '{a = [c]}', '{a = 1, b = {x = c}, z = "s"}', '{a = [{x = 1}, {x = c}]}', '[c]', '[1, c]']
 NONFINITE = ['1.0 / 0.0', '(0.0 - 1.0) / 0.0', '0.0 / 0.0', '1' + '0' * 400 + '.0']
 
 
 def standin_unrepresentable(tier, seed):
-    """NULL in TOML, constraint values in every format and non-finite floats in JSON must be reported as an error (exit status != 0,
-    no artifact); a non-finite float in YAML / TOML (which have .inf / inf / nan) is either an error or decodes to that same float."""
+    """NULL in TOML, a top-level value that is not a table in TOML, constraint values in every format and non-finite floats in JSON must be
+    reported as an error (exit status != 0); a non-finite float in YAML / TOML (which have .inf / inf / nan) and a TOML list mixing tuples
+    with other items are either an error or decode to exactly that data."""
     rnd = random.Random('unrep-%s' % seed)
     n_null = 60 if tier == 'thorough' else 12
     cases = []      # (fmt, source, None = must fail | expected value)
@@ -876,6 +870,19 @@ def standin_unrepresentable(tier, seed):
     for i in range(n_null):
         v = inject_null(rnd, gen_top(rnd, 'toml', rnd.randint(1, 4)))
         cases.append(('toml', 'out toml %s;\n' % ucg_lit(v), None))
+    # TOML: a document is a table -- any other top-level value cannot be represented
+    for lit in TOML_NOT_A_DOCUMENT:
+        cases.append(('toml', 'out toml %s;\n' % lit, None))
+    # TOML: lists mixing tuples with other items (ucg's converter refuses them: 3850144).  TOML 1.0 itself could hold them as inline
+    # tables, so the demand taken from the property is: a build error, or text that decodes to exactly this data -- never broken TOML,
+    # never dropped members.
+    n_mix = 40 if tier == 'thorough' else 10
+    if not need('toml'):
+        for lit, val in TOML_MIXED:
+            cases.append(('toml', 'out toml %s;\n' % lit, val))
+        for i in range(n_mix):
+            v = inject_mix(rnd, gen_top(rnd, 'toml', rnd.randint(1, 4)))
+            cases.append(('toml', 'out toml %s;\n' % ucg_lit(v), v))
     for fmt in ('json', 'yaml', 'toml', 'yamlmulti'):
         for ci, con in enumerate(CONSTRAINTS):
             for use in (CONSTRAINT_USES if (ci == 0 or tier == 'thorough') else CONSTRAINT_USES[:2]):
@@ -890,13 +897,14 @@ def standin_unrepresentable(tier, seed):
         for nf, val in (('1.0 / 0.0', inf), ('(0.0 - 1.0) / 0.0', -inf), ('0.0 / 0.0', nan)):
             cases.append((fmt, 'out %s {a = %s, l = [%s]};\n' % (fmt, nf, nf), Tup([('a', val), ('l', [val])])))
     # through a convert expression
-    for fmt, lit in (('toml', '{a = NULL}'), ('toml', '{a = [1, NULL]}'), ('json', '{a = 1.0 / 0.0}'), ('json', '[0.0 / 0.0]')):
+    for fmt, lit in (('toml', '{a = NULL}'), ('toml', '{a = [1, NULL]}'), ('json', '{a = 1.0 / 0.0}'), ('json', '[0.0 / 0.0]'), ('toml', '1'), ('toml', '[1, 2]'), ('toml', '"s"')):
         cases.append(('json', 'let s = convert %s %s;\nout json {s = s};\n' % (fmt, lit), None))
     for fmt in ('json', 'yaml', 'toml'):
         cases.append(('json', 'constraint c = in 1..3;\nlet s = convert %s {a = c};\nout json {s = s};\n' % fmt, None))
-    bound = ('%d programs: NULL at fixed and %d seeded random positions of TOML trees; 3 named constraints used as a value in %d positions x {json, yaml, toml, yamlmulti}; '
+    bound = ('%d programs: NULL at fixed and %d seeded random positions of TOML trees; %d top-level non-tables through out toml (must fail); %d fixed + %d seeded TOML trees with a list mixing '
+             'tuples and other items (fail or decode to the same data); 3 named constraints used as a value in %d positions x {json, yaml, toml, yamlmulti}; '
              'inf / -inf / NaN in JSON (must fail) and in YAML / TOML (fail or decode to the same float); the same through convert expressions (seed %s)'
-             % (len(cases), n_null, len(CONSTRAINT_USES), seed))
+             % (len(cases), n_null, len(TOML_NOT_A_DOCUMENT), len(TOML_MIXED), n_mix, len(CONSTRAINT_USES), seed))
 
     def judge(fmt, exp, rc, text):
         if exp is None:         # "reported as an error" = the build's exit status (what a failed build leaves on disk is C14's business)
